@@ -44,6 +44,9 @@ class Profile(object):
         self.p_parallel_edge = 0.1
         self.lang_jinja = 0.25
         self.p_template = 0.25     # use a hand-written shape with random details
+        self.templates = [0, 1, 2, 3, 4, 5, 6]   # which templates (weights by repetition)
+        self.bad_where = None      # restrict the position of the injected failing expression
+        self.p_use_y = 0.15        # reference the string variable y in inputs / publishes
         self.p_odd_strings = 0.3   # string values with newlines, comments, quotes, unicode
         for k, v in kw.items():
             setattr(self, k, v)
@@ -59,7 +62,7 @@ def template_def(rng, prof):
 
     def tr(do, when=None, publish=None):
         return {"when": when, "publish": publish or [], "do": do}
-    k = rng.randint(0, 5)
+    k = rng.choice(prof.templates)
     w = rng.choice([None, fn("succeeded"), fn("completed")])
     if k == 0:   # fork/join below a split
         tasks = [T("a", [tr(["s"], w)]), T("b", [tr(["s"], rng.choice([None, fn("completed")]))]),
@@ -89,6 +92,12 @@ def template_def(rng, prof):
         tasks = [T("a"), T("b", [tr(["c"], fn("succeeded"), [["vb", lit(1)]]), tr(["d"], fn("failed"))], delay=lit(5)),
                  T("c"), T("d")]
         feat = "tpl_delay"
+    elif k == 6:  # two branches of different length publish the same variable into a join
+        tasks = [T("start", [tr(["x1", "y1"])]),
+                 T("x1", [tr(["x2"], None, [["v", lit("from_x")]])]), T("x2", [tr(["j"])]),
+                 T("y1", [tr(["j"], None, [["v", lit("from_y")]])]),
+                 T("j", [tr(["continue"], None, [["w", ctx("v")]])], join="all", input=[["p", ctx("v")]])]
+        feat = "tpl_publish_race"
     else:         # two publish-only transitions and a noop ending
         tasks = [T("a", [tr(["b", "c"])]), T("b", [tr(["noop"], None, [["x", lit(1)]])]),
                  T("c", [tr(["continue"], None, [["v1", fn("result")]]), tr(["continue"], None, [["v2", lit(7)]])])]
@@ -97,8 +106,15 @@ def template_def(rng, prof):
          "output": [["o1", ctx("x")]], "tasks": tasks}
     if feat == "tpl_cleanup_fail":
         d["output"].append(["o2", ctx("n")])
+    if feat == "tpl_publish_race":
+        d["vars"].append(["v", lit("none")])
+        d["output"].append(["ov", ctx("v")])
     lang = "jinja" if rng.random() < prof.lang_jinja else "yaql"
     return d, lang, {}, set([feat, "template"])
+
+
+ODD = ["line\n", "a\n\n", "x {# note #} y", "12", "true", "null", "1e5", "%s %d", "\u00fc\u00f1\u00ed",
+       "say \"hi\"", "\"q\"", "plain words"]
 
 
 def gen_def(rng, prof):
@@ -134,6 +150,10 @@ def gen_def(rng, prof):
              "retry": None, "delay": None, "next": []}
         if rng.random() < 0.6:
             t["input"].append(["p", ctx(rng.choice(["x", "n"] + published[:2]))])
+        if rng.random() < prof.p_odd_strings * 0.5:
+            t["input"].append(["s", lit(rng.choice(ODD))])
+        if rng.random() < prof.p_use_y and any(v[0] == "y" for v in d["vars"]):
+            t["input"].append(["yy", ctx("y")])
         if rng.random() < 0.2:
             t["input"].append(["q", lit({"k": [1, "v", None, True]})])
         if rng.random() < 0.2:
@@ -167,7 +187,8 @@ def gen_def(rng, prof):
                     v = "v%d" % (len(published) + 1)
                 val = rng.choice([lit(rng.randint(0, 99)), fn("result"), ctx("x"), ctx("y") if any(v[0] == "y" for v in d["vars"]) else ctx("x"),
                                   op("add", ctx("x"), lit(1)), lit("w%d" % rng.randint(0, 9)),
-                                  lit({"a": rng.randint(3, 9)}), lit(None)])
+                                  lit({"a": rng.randint(3, 9)}), lit(None),
+                                  lit(rng.choice(ODD)) if rng.random() < prof.p_odd_strings else lit(rng.randint(0, 9))])
                 if rng.random() < 0.15:
                     v = "d"   # a dict published over a dict (merge_dicts recurses into it)
                     val = lit({"a": rng.randint(3, 9)})
@@ -284,8 +305,8 @@ def gen_def(rng, prof):
         bad = rng.choice([ctx("nope"), op("add", ctx("y_undefined"), lit(1)), ctx("__state"), {"ctxkey": "d", "k": "zz"}, op("div", lit(1), lit(0)),
                           {"item": "k"}, op("eq", ctx("nope2"), lit(1))])
         t = rng.choice(tasks)
-        where = rng.choice(["input", "when", "publish", "items", "concurrency", "delay", "retry_when",
-                            "retry_count", "retry_delay", "output", "vars", "wfinput"])
+        where = rng.choice(prof.bad_where or ["input", "when", "publish", "items", "concurrency", "delay", "retry_when",
+                                             "retry_count", "retry_delay", "output", "vars", "wfinput"])
         if where == "input":
             t["input"].append(["bad", bad])
         elif where == "when" and t["next"]:
